@@ -82,6 +82,12 @@ def gen(seed, tier):
                 payloads.append({"id": "af%d_%d" % (ph, j), "flavour": rng.choice(["asyncio", "asyncio", "trio"]), "phase": ph, "via": "adopt", "steps": [["block"]], "late": True})
             gap = rng.choice([0.02, 0.05])
             adopters.append({"id": "f%d" % ph, "script": [["wait-running"]] + ([["sleep", max(0.0, tsd - 0.2)]] if (tsd and not second) else []) + [x for j in range(nfl) for x in (["adopt", "af%d_%d" % (ph, j)], ["sleep", gap])]})
+        if rng.random() < 0.12:
+            # services being created by another thread right when the stop arrives
+            nsv = rng.choice([2, 4, 8])
+            for j in range(nsv):
+                payloads.append({"id": "sv%d_%d" % (ph, j), "flavour": rng.choice(FL), "phase": ph, "via": "service", "steps": [["block"]], "late": True})
+            adopters.append({"id": "c%d" % ph, "script": [["wait-marker", "mark:trigger%d" % ph]] + [x for j in range(nsv) for x in (["create-service", "sv%d_%d" % (ph, j)], ["sleep", rng.choice([0.0, 0.0, 0.001, 0.01])])]})
         end = rng.choice(["shutdown", "shutdown", "shutdown-payload", "shutdown-payload", "sigint", "fail", "fail-then-shutdown", "sigint-then-shutdown", "shutdown-twice"])
         script.append(["mark", "trigger%d" % ph])
         if end == "shutdown":
